@@ -91,6 +91,8 @@ def run(tier):
     rnd = os.path.join(d, "rnd_cases.ndjson")
     vf.run_harness(binpath, ["buf2", "gen", "--seed", vf.seed(), "--tier", tier], stdout_path=rnd)
     vf.exec_and_validate(chk, binpath, "buf2", "TV_Buf2", rnd, jvms=8)
+    # the random histories also in a plain release build (no debug assertions, wrapping index arithmetic)
+    vf.exec_and_validate(chk, vf.build_harness("plain"), "buf2", "TV_Buf2", rnd, jvms=8)
     chk.cov["distinct_nontrivial"] = chk.cov["traces_validated_against_impl"]
     # 4. growth beyond the statement: Rect as a set of points (intersect, contains, is_empty,
     #    extents, conversions); every pair of rects TLC explores is replayed; rejections are notes
